@@ -47,3 +47,9 @@ CLAIMED['C08'] = ('6/C08', 'Bounded symbolic check: a target with two allow_refs
                   'other parameters; symbolic values) the held values are compared with an independently computed resolution of the '
                   'currently installed reference and the sources\' watcher tables with the links that should exist.',
                   'symbolic execution (CrossHair+z3) of the reference linking/propagation code against an independent resolution model')
+CLAIMED['C07'] = ('6/C07', 'Bounded-exhaustive symbolic check: a parent whose depends(watch=True) method follows a path dependency set (a.x | a.x,a.y | '
+                  'a.x,a.b.x | a.param) over pools of sub-objects; after every one of k=3/4 symbolic operations (attach/replace/detach at '
+                  'depth 1 and 2, leaf assignments on attached and detached objects, symbolic values) the number of calls is compared with a '
+                  'path-value model (value reached before vs after, both sides resolving), operations on detached objects must be silent and '
+                  'detached objects must hold no watcher.',
+                  'symbolic execution (CrossHair+z3) of the dynamic-dependency rebinding code against a path-value model')
